@@ -60,6 +60,11 @@ func workerMain() {
 	s := meta.NewService(cfg)
 	s.RaftListener = mux.Listen(meta.MuxHeader)
 	go mux.Serve(ln)
+	// Service.Open gives the mux one second to start serving; on a loaded
+	// machine that goroutine may not have run yet
+	for i := 0; i < 3000 && s.RaftListener.Addr() == nil; i++ {
+		time.Sleep(10 * time.Millisecond)
+	}
 	// the parent going away (stdin closed) ends the worker, also while opening
 	go func() {
 		io.Copy(io.Discard, os.Stdin)
